@@ -532,6 +532,10 @@ def run(ctx):
                    "(may_flush / flush), so that what a generated auto-flush accessor receives is delivered to the addressed child")
     ctx.run_rule("S8", lambda c: C06._as(c, "S8", lambda s_: C12.rule_auto_flush(s_, fr, "L11")))
     ctx.run_rule("S7", rule_S7)
+    from . import vec_common as _vc
+    ctx.rule("S9", "the child `from()` binds a field to is the vector's child for those label values (shared with C10.R2: get_or_create_metric re-checks, builds and inserts under "
+                   "one write guard and returns the child that is in the map)")
+    ctx.run_rule("S9", lambda c: C06._as(c, "S9", lambda s_: _vc.rule_double_checked_creation(s_, fr, "R2")))
     try:
         if hdir is None:
             lib = os.path.join(VERIF, "harness", "smgen", "src", "lib.rs")
